@@ -58,17 +58,24 @@ def run(ctx: common.Ctx):
         'parameters; plus two-gene inputs with ONE fusion (exonic / intronic breakpoints, coding and '
         'non-coding donors) and single-gene inputs with ONE circRNA / ciRNA, each with small records: real '
         'FASTA vs union of Spec.callVariant per transcript and Spec.callBackbone / Spec.callCirc. '
-        'non-trivial = definition or tool reports >= 1 peptide')
+        'non-trivial = definition or tool reports >= 1 peptide. Layer G: in the trypsin-noexc and '
+        'all-enzymes streams the graphs the real run built after create_variant_graph / fit_into_codons / '
+        'translate / create_cleavage_graph are dumped (method wrappers, no change to /repo) and the '
+        'checkpoint predicates of Model/Graph.lean are evaluated on them by the driver (G-* streams: '
+        'language of every reading frame = sequences of all compatible combinations; cleavage sites '
+        'are node boundaries)')
     base = dict(vary=True, per_tx=(1, 7), max_size=6, window=24, witness=False, as_frac=0.3)
-    res = cv_checks.explore(ctx, ctx.n(220, 4000), dict(base, exception=None, variations=['collapse']))
+    res = cv_checks.explore(ctx, ctx.n(220, 4000), dict(base, exception=None, variations=['collapse'], stages=True))
     stats = dict(ctx.coverage['worker_stats'])
     judge(ctx, res, 'trypsin-noexc')
+    cv_checks.judge_checkpoints(ctx, res, 'missing')
     res = cv_checks.explore(ctx, ctx.n(120, 2000), dict(base, exception='auto'))
     judge(ctx, res, 'trypsin-exc')
     stats2 = dict(ctx.coverage['worker_stats'])
     res = cv_checks.explore(ctx, ctx.n(140, 2500),
-                            dict(base, exception=None, enzymes=cv_checks.enzymes_all()))
+                            dict(base, exception=None, enzymes=cv_checks.enzymes_all(), stages=True))
     judge(ctx, res, 'all-enzymes')
+    cv_checks.judge_checkpoints(ctx, res, 'missing')
     for kind, n in (('fusion', ctx.n(90, 1500)), ('circ', ctx.n(90, 1500))):
         bres = cv_checks.explore_backbone(ctx, kind, n, dict(exception=None))
         for r in bres:
